@@ -3,4 +3,4 @@ Require Extraction.
 Require Import ExtrOcamlBasic.
 From Verif Require Import Lib.Base Model.Ast Model.Instr Model.Compiler Model.Encode Model.Verifier Model.Decode.
 Extraction "model.ml" decode decode_program enc_raw check_code check_func check_program infer top_ctx ftable_of
-  check_limits check_program_limits program_limits set_rs_short csize.
+  check_limits check_program_limits program_limits set_rs_short csize f_run fs_init.
